@@ -200,6 +200,15 @@ static cplx hurwitz(double s, cplx a)
     }
     return sum;
 }
+// Riemann zeta at real s != 1: Euler-Maclaurin for s >= 1/2, the functional equation below
+static double zeta_real(double s)
+{
+    if (s >= 0.5)
+        return hurwitz(s, 1.0).real();
+    // zeta(s) = 2^s pi^(s-1) sin(pi s / 2) Gamma(1 - s) zeta(1 - s)
+    return std::pow(2.0, s) * std::pow(PI, s - 1) * std::sin(PI * s / 2) * std::tgamma(1 - s)
+           * hurwitz(1 - s, 1.0).real();
+}
 static bool lambertw_ref(cplx z, cplx &w)
 {
     if (z == cplx(0, 0)) {
@@ -294,8 +303,8 @@ static bool ref_value(const std::string &f, const std::vector<cplx> &a, cplx &ou
         else if (f == "erf") { if (!real0) return false; out = std::erf(z.real()); }
         else if (f == "erfc") { if (!real0) return false; out = std::erfc(z.real()); }
         else if (f == "lambertw") { return lambertw_ref(z, out); }
-        else if (f == "zeta") { if (!real0) return false; if (z.real() == 1) { pole = true; return true; } if (std::fabs(z.real()) > 40) return false; out = hurwitz(z.real(), 1.0); }
-        else if (f == "dirichlet_eta") { if (!real0) return false; if (z.real() == 1) { out = std::log(2.0); return true; } if (std::fabs(z.real()) > 40) return false; out = (1 - std::pow(2.0, 1 - z.real())) * hurwitz(z.real(), 1.0); }
+        else if (f == "zeta") { if (!real0) return false; if (z.real() == 1) { pole = true; return true; } if (std::fabs(z.real()) > 40) return false; out = zeta_real(z.real()); }
+        else if (f == "dirichlet_eta") { if (!real0) return false; if (z.real() == 1) { out = std::log(2.0); return true; } if (std::fabs(z.real()) > 40) return false; out = (1 - std::pow(2.0, 1 - z.real())) * zeta_real(z.real()); }
         else if (f == "digamma") { if (is_nonpos_int(z)) { pole = true; return true; } out = cdigamma(z); }
         else if (f == "trigamma") { if (is_nonpos_int(z)) { pole = true; return true; } if (z.real() <= 0) return false; out = hurwitz(2, z); }
         else return false;
@@ -311,7 +320,15 @@ static bool ref_value(const std::string &f, const std::vector<cplx> &a, cplx &ou
             if (z.real() == 1) { pole = true; return true; }
             if (std::fabs(z.real()) > 40) return false;
             if (w.real() <= 0) return false; // no agreed value for a <= 0
-            out = hurwitz(z.real(), w);
+            if (z.real() < 0.5) {
+                // zeta(s, a) = zeta(s) - sum_{k < a} k^-s for a positive integer a
+                if (w.imag() != 0 or std::floor(w.real()) != w.real() or w.real() > 1000) return false;
+                double acc = zeta_real(z.real());
+                for (int k = 1; k < (int)w.real(); k++)
+                    acc -= std::pow((double)k, -z.real());
+                out = acc;
+            } else
+                out = hurwitz(z.real(), w);
         } else if (f == "beta") {
             bool p0 = is_nonpos_int(z), p1 = is_nonpos_int(w), ps = is_nonpos_int(z + w);
             if ((p0 or p1) and ps) return false;
